@@ -243,6 +243,14 @@ func runC05(c *Ctx) {
 		if ca != nil {
 			c.Ob("C05-R2", "clique.accumulateRewards credits nothing", c.FnPos(ca), len(credits(ca)) == 0, "")
 		}
+		// SELFDESTRUCT pays the contract's balance to the beneficiary and relies on StateDB.Suicide to remove it from
+		// the contract: whenever Suicide reports success the balance was zeroed (and journalled), also for a contract
+		// that already self-destructed earlier in the transaction and was funded again
+		sui := c.Fn("core/state:(*StateDB).Suicide")
+		c.MustOnAccept("C05-R2", sui, 0, true, []LitReq{
+			{Name: "StateDB.Suicide zeroes the balance whenever it returns true", Re: `^store:StateDB#0\.getStateObject\(Address#0\)\.data\.Balance=new\(Int\)(~\d+)?$`},
+			{Name: "StateDB.Suicide journals the previous balance whenever it returns true", Re: `^store:var:\w+\.prevbalance=new\(Int\)(~\d+)?\.Set\(StateDB#0\.getStateObject\(Address#0\)\.Balance\(\)\)$`},
+		})
 	})
 	c.Min("C05-R2", 22)
 
